@@ -27,8 +27,11 @@ class WAPProtocol(HTTPProtocol):
 
         waptop = self.config.get("protocols.wap.WAPProtocol", "waptop")
         self.waptop = waptop
-        if self.requestparts[1].startswith(waptop):
-            # If it starts with waptop, *guaranteed* to be wap.
+        if self.requestparts[1].startswith(waptop) and self.requestparts[1][
+            len(waptop) : len(waptop) + 1
+        ] in ("", "/", "?"):
+            # If it starts with waptop, *guaranteed* to be wap.  (waptop must
+            # end at a path boundary: /wapiti.txt is not below /wap.)
             self.requestparts[1] = self.requestparts[1][len(waptop) :]
             return True
 
